@@ -659,13 +659,14 @@ fn oracle_f(unit: usize, evs: &[String], obs: &Result<Vec<FSnap>, String>) -> St
 
 // ------------------------------------------------------------------ a cases: Collection::assemble over several real sources
 #[derive(Clone, Debug)]
-enum SrcSpec { Mqtt { name: usize, up: bool, lost: u64, errs: u64, infl: u16, perr: u64, topics: Vec<(u64, u64)> }, Filter { name: usize, total: u64, routers: Vec<(u64, u64)> } }
+enum SrcSpec { Tokio { name: usize }, Mqtt { name: usize, up: bool, lost: u64, errs: u64, infl: u16, perr: u64, topics: Vec<(u64, u64)> }, Filter { name: usize, total: u64, routers: Vec<(u64, u64)> } }
 
 fn parse_kv(s: &str) -> Vec<(u64, u64)> { if s == "-" { vec![] } else { s.split('&').map(|p| { let (a, b) = p.split_once('=').unwrap(); (a.parse().unwrap(), b.parse().unwrap()) }).collect() } }
 fn show_kv(v: &[(u64, u64)]) -> String { if v.is_empty() { "-".into() } else { join(v.iter().map(|(a, b)| format!("{a}={b}")), "&") } }
 fn parse_src(s: &str) -> SrcSpec {
     let p: Vec<&str> = s.split('.').collect();
     match p[1] {
+        "t" => SrcSpec::Tokio { name: p[0].parse().unwrap() },
         "m" => SrcSpec::Mqtt { name: p[0].parse().unwrap(), up: p[2] == "1", lost: p[3].parse().unwrap(), errs: p[4].parse().unwrap(), infl: p[5].parse().unwrap(), perr: p[6].parse().unwrap(), topics: parse_kv(p[7]) },
         _ => SrcSpec::Filter { name: p[0].parse().unwrap(), total: p[2].parse().unwrap(), routers: parse_kv(p[3]) },
     }
@@ -674,12 +675,13 @@ fn show_src(s: &SrcSpec) -> String {
     match s {
         SrcSpec::Mqtt { name, up, lost, errs, infl, perr, topics } => format!("{name}.m.{}.{lost}.{errs}.{infl}.{perr}.{}", *up as u8, show_kv(topics)),
         SrcSpec::Filter { name, total, routers } => format!("{name}.f.{total}.{}", show_kv(routers)),
+        SrcSpec::Tokio { name } => format!("{name}.t"),
     }
 }
-fn src_name(s: &SrcSpec) -> usize { match s { SrcSpec::Mqtt { name, .. } | SrcSpec::Filter { name, .. } => *name } }
+fn src_name(s: &SrcSpec) -> usize { match s { SrcSpec::Mqtt { name, .. } | SrcSpec::Filter { name, .. } | SrcSpec::Tokio { name } => *name } }
 
-enum Built { M(MqttMetricsProbe), F(FilterMetricsProbe) }
-impl Built { fn source(&self) -> std::sync::Arc<dyn Source> { match self { Built::M(p) => p.metrics_source(), Built::F(p) => p.metrics_source() } } }
+enum Built { M(MqttMetricsProbe), F(FilterMetricsProbe), T(std::sync::Arc<dyn Source>) }
+impl Built { fn source(&self) -> std::sync::Arc<dyn Source> { match self { Built::M(p) => p.metrics_source(), Built::F(p) => p.metrics_source(), Built::T(a) => a.clone() } } }
 
 struct AObs { assembled: String, own: Vec<(usize, String)> }
 
@@ -693,13 +695,19 @@ fn run_a(specs: &[SrcSpec]) -> Result<AObs, String> {
             match s {
                 SrcSpec::Mqtt { up, lost, errs, infl, perr, topics, .. } => {
                     let p = mqtt_probe(unit, &coll);
-                    for _ in 0..*lost { p.report(&ReporterCall::Reconnecting); }
+                    for _ in 0..*lost { p.report(&ReporterCall::Connected); p.report(&ReporterCall::Reconnecting); } // an established connection lost: counted by the reporter as written and as repaired
                     for _ in 0..*errs { p.report(&ReporterCall::ConnectionError); }
                     for _ in 0..*perr { p.report(&ReporterCall::PublishError); }
                     p.report(&ReporterCall::InflightUpdate(*infl));
                     for (t, n) in topics { for _ in 0..*n { p.report(&ReporterCall::PublishOk(topic_of_idx(*t))); } }
                     p.report(&if *up { ReporterCall::Connected } else { ReporterCall::Disconnected });
                     built.push(Built::M(p));
+                }
+                SrcSpec::Tokio { .. } => {
+                    // as the BMP and RIB units do: a task monitor nobody instruments, registered under the unit's name
+                    let src: std::sync::Arc<dyn Source> = std::sync::Arc::new(rotonda::tokio::TokioTaskMetrics::new());
+                    coll.register(unit.into(), std::sync::Arc::downgrade(&src));
+                    built.push(Built::T(src));
                 }
                 SrcSpec::Filter { routers, .. } => {
                     let p = FilterMetricsProbe::new(component(unit, "filter", &coll), "my-filter");
@@ -754,7 +762,7 @@ fn gen_a(rng: &mut Rng) -> Vec<SrcSpec> {
     let n = 1 + rng.below(4);
     (0..n).map(|_| {
         let name = if nasty { rng.below(8) as usize } else { *rng.pick(&[0usize, 5, 6, 7]) };
-        if rng.chance(1, 2) {
+        if rng.chance(1, 6) { SrcSpec::Tokio { name } } else if rng.chance(1, 2) {
             let k = rng.below(4);
             let mut topics: Vec<(u64, u64)> = vec![];
             for _ in 0..k { let t = if nasty { rng.below(24) } else { rng.below(3) * 8 + rng.below(3) }; if !topics.iter().any(|x| topic_of_idx(x.0) == topic_of_idx(t)) { topics.push((t, 1 + rng.below(3))); } }
@@ -813,7 +821,7 @@ fn record(rec: &mut Recorder, line: &str) -> (String, bool) {
         _ => {
             let specs: Vec<SrcSpec> = p[1].split(';').map(parse_src).collect();
             let obs = run_a(&specs);
-            for s in &specs { rec.bump(match s { SrcSpec::Mqtt { .. } => "a.source.mqtt", SrcSpec::Filter { .. } => "a.source.filter" }); }
+            for s in &specs { rec.bump(match s { SrcSpec::Mqtt { .. } => "a.source.mqtt", SrcSpec::Filter { .. } => "a.source.filter", SrcSpec::Tokio { .. } => "a.source.tokio" }); }
             let names: BTreeSet<usize> = specs.iter().map(src_name).collect();
             if names.len() < specs.len() { rec.bump("a.case.two-sources-under-one-name"); }
             (show_a(&obs), oracle_a(&specs, &obs), specs.len() >= 2)
@@ -841,6 +849,7 @@ const WITNESSES: &[&str] = &[
     "a|0.m.1.0.0.2.0.0=3&9=1;5.f.4.3=4;6.m.0.1.2.0.1.1=2",
     "a|5.f.2.1=2;5.f.0.-",
     "a|4.m.1.0.0.0.0.5=1&20=2;2.f.1.0=1;3.m.0.0.0.0.0.-",
+    "a|5.t;5.f.2.1=2;0.m.1.0.0.0.0.0=1;5.t",
 ];
 
 fn main() {
